@@ -20,6 +20,18 @@ type evalCtx struct {
 	fr    *frame             // frame whose locals are visible (own-contract evaluation)
 	pkg   string             // package path the contract text belongs to (for unqualified globals)
 	inOld bool
+	side  *[]smt.T // type invariants (ranges, slice well-formedness) of heap values read by the expression
+}
+
+// sideFacts records the type invariants of a value read from the heap, unless it depends on a bound variable.
+func (x *Exec) sideFacts(c *evalCtx, v smt.T, t types.Type) {
+	if c.side == nil || t == nil || strings.Contains(v.S, "!b") {
+		return
+	}
+	switch t.Underlying().(type) {
+	case *types.Slice, *types.Basic, *types.Pointer, *types.Interface:
+		*c.side = append(*c.side, x.typeFacts(v, t)...)
+	}
 }
 
 type typed struct {
@@ -62,7 +74,10 @@ func (x *Exec) evalClauseExtra(e gcl.Expr, st, old *State, fr *frame, results []
 	if x.contract != nil {
 		pkg = x.contract.Pkg
 	}
-	return x.evalExpr(e, &evalCtx{st: st, old: old, env: env, fr: fr, pkg: pkg})
+	var side []smt.T
+	t, err := x.evalExpr(e, &evalCtx{st: st, old: old, env: env, fr: fr, pkg: pkg, side: &side})
+	st.assume(dedup(side)...)
+	return t, err
 }
 
 func (x *Exec) evalExpr(e gcl.Expr, c *evalCtx) (smt.T, error) {
@@ -218,7 +233,9 @@ func (x *Exec) evalTyped(e gcl.Expr, c *evalCtx) (typed, error) {
 			}
 			hn, hs := x.elemHeap(t.Elem())
 			h := x.heap(x.curState(c), hn, hs)
-			return tv(smt.Select(smt.Select(h, sArr(base.t)), smt.Add(sOff(base.t), idx.t)), t.Elem()), nil
+			v := smt.Select(smt.Select(h, sArr(base.t)), smt.Add(sOff(base.t), idx.t))
+			x.sideFacts(c, v, t.Elem())
+			return tv(v, t.Elem()), nil
 		case *types.Array:
 			return tv(smt.Select(base.t, idx.t), t.Elem()), nil
 		}
@@ -413,7 +430,9 @@ func (x *Exec) evalField(base typed, name string, c *evalCtx) (typed, error) {
 				}
 				hn, hs := x.fieldHeap(t, i)
 				h := x.heap(x.curState(c), hn, hs)
-				return tv(smt.Select(h, base.t), ft), nil
+				v := smt.Select(h, base.t)
+				x.sideFacts(c, v, ft)
+				return tv(v, ft), nil
 			}
 			return tv(x.structField(t, stt, i, base.t), ft), nil
 		}
@@ -792,4 +811,16 @@ func (x *Exec) evalCallRef(e gcl.Call, c *evalCtx) (typed, error) {
 		return tv(v, rt.At(k).Type()), nil
 	}
 	return tv(res[k], rt.At(k).Type()), nil
+}
+
+func dedup(fs []smt.T) []smt.T {
+	seen := map[string]bool{}
+	var out []smt.T
+	for _, f := range fs {
+		if !seen[f.S] {
+			seen[f.S] = true
+			out = append(out, f)
+		}
+	}
+	return out
 }
